@@ -615,18 +615,53 @@ func awsOpCase(r *Rng, fleet bool, w io.Writer) string {
 		line["obs"] = obs
 		line["seq"] = 0
 		emitLine(w, line)
-		// follow-up increases on the SAME provider object, without a refresh in between: the provider's cached
-		// group must still describe what AWS last told it (the model carries the cached group across the sequence)
-		if !fleet && r.chance(35) {
-			for seq := 1; seq <= r.pickI(1, 2); seq++ {
+		// follow-up operations on the SAME provider object, without a refresh in between: the provider's cached
+		// group must keep describing what AWS last told it plus what AWS accepted since (the model carries the
+		// cached group across the sequence). Increases and deletions, faults at any call of the follow-up.
+		if !fleet && r.chance(45) {
+			for seq := 1; seq <= r.pickI(1, 2, 3); seq++ {
 				rec.reset()
-				if r.chance(40) {
-					rec.FailAt[0] = true
+				for f := r.pickI(0, 0, 1, 1, 2); f > 0; f-- {
+					rec.FailAt[r.intn(4)] = true
 				}
-				delta := int64(r.rng(1, 3))
-				outcome := protect(func() error { return ng.IncreaseSize(delta) })
-				emitLine(w, map[string]interface{}{"op": "awsop", "kind": "increase", "cfg": pcfg, "g": pg, "delta": delta, "seq": seq,
-					"resps": nnResps(rec.Resps), "obs": map[string]interface{}{"outcome": outcome, "j": nnEntries(rec.Entries)}})
+				if r.chance(50) {
+					delta := int64(r.rng(1, 3))
+					outcome := protect(func() error { return ng.IncreaseSize(delta) })
+					emitLine(w, map[string]interface{}{"op": "awsop", "kind": "increase", "cfg": pcfg, "g": pg, "delta": delta, "seq": seq,
+						"resps": nnResps(rec.Resps), "obs": map[string]interface{}{"outcome": outcome, "j": nnEntries(rec.Entries)}})
+					continue
+				}
+				var nodes []*v1.Node
+				pnodes := []PNode{}
+				for k, cnt := 0, r.rng(1, 3); k < cnt && len(g.Instances) > 0; k++ {
+					in := g.Instances[r.intn(len(g.Instances))]
+					pid := providerID(in.AZ, in.ID)
+					if r.chance(8) {
+						pid = providerID("az-z", fmt.Sprintf("i-y%02d", k)) // foreign
+					}
+					nd := &v1.Node{ObjectMeta: metav1.ObjectMeta{Name: fmt.Sprintf("s%dd%d", seq, k)}, Spec: v1.NodeSpec{ProviderID: pid}}
+					nodes = append(nodes, nd)
+					pnodes = append(pnodes, protoNode(nd))
+				}
+				var derr error
+				o := map[string]interface{}{}
+				outcome := protect(func() error { derr = ng.DeleteNodes(nodes...); return nil })
+				switch {
+				case outcome != "ok":
+					o["outcome"] = outcome
+				case derr == nil:
+					o["outcome"] = "none"
+				default:
+					if _, ok := derr.(*cloudprovider.NodeNotInNodeGroup); ok {
+						o["outcome"] = "notInGroup"
+					} else {
+						o["outcome"] = "error"
+					}
+				}
+				o["targetAfter"] = ng.TargetSize()
+				o["j"] = nnEntries(rec.Entries)
+				emitLine(w, map[string]interface{}{"op": "awsop", "kind": "delete", "cfg": pcfg, "g": pg, "nodes": pnodes, "seq": seq,
+					"resps": nnResps(rec.Resps), "obs": o})
 			}
 		}
 		return kind
